@@ -350,6 +350,20 @@ class Interp(object):
             self.assign(s.target, self.ev(s.value, env, module, func), env, module, func)
 
     def st_AugAssign(self, s, env, module, func):
+        if isinstance(s.target, ast.Subscript):
+            # the subscript expression is evaluated ONCE (it may have effects, e.g. a random mask)
+            base = self.ev(s.target.value, env, module, func)
+            key = self.ev_index(s.target.slice, env, module, func)
+            cur = self.getitem(base, key)
+            rhs = self.ev(s.value, env, module, func)
+            self.setitem(base, key, self.binop(s.op, cur, rhs))
+            return
+        if isinstance(s.target, ast.Attribute):
+            obj = self.ev(s.target.value, env, module, func)
+            cur = self.getattr(obj, s.target.attr)
+            rhs = self.ev(s.value, env, module, func)
+            self.setattr(obj, s.target.attr, self.binop(s.op, cur, rhs))
+            return
         cur = self.ev(_load(s.target), env, module, func)
         rhs = self.ev(s.value, env, module, func)
         if isinstance(cur, (Lane, Arr2)) and isinstance(s.target, ast.Name):
